@@ -11,7 +11,7 @@ func init() {
 		Level: "model_checking",
 		Run: func(c *runCtx) (map[string]interface{}, []string, []violation, error) {
 			opts := map[string]interface{}{"import": true, "templates": []string{"e"}, "patterns": []string{"E", "R"}, "max_reorg": 2, "max_queue": 2, "max_height": 6, "no_b": true,
-				"gap": 3, "c_blocks": []string{"pc0", "pc2", "pc4", "sc"}}
+				"gap": 3, "c_blocks": []string{"pc0", "pc2", "pc4", "sc", "c2a"}}
 			depth, dl := 6, 170*time.Second
 			if c.Tier == "thorough" {
 				opts["max_reorg"] = 3
@@ -60,7 +60,7 @@ func init() {
 			}
 			if batchOverlay {
 				bo := map[string]interface{}{"import": true, "batch": 1, "templates": []string{"e"}, "patterns": []string{"E", "R"}, "max_reorg": 2, "max_queue": 2, "max_height": 5, "no_b": true,
-					"gap": 3, "c_blocks": []string{"pc0", "pc2", "sc"}, "setup": []string{"x.pc0", "d", "x.e", "d"}}
+					"gap": 3, "c_blocks": []string{"pc0", "pc2", "sc", "c2a"}, "setup": []string{"x.pc0", "d", "x.e", "d"}}
 				sb, err := runBFS(c.Bin, c.Scratch, bfsCfg{Model: "c01", Opts: bo, Depth: map[bool]int{false: 5, true: 8}[c.Tier == "thorough"], Workers: c.Workers, Deadline: dl, Recycle: 150, OpenTags: openTags(c)})
 				if err != nil {
 					return nil, nil, nil, err
